@@ -6,8 +6,26 @@ BASE = json.load(open('/root/.vp/BASELINE.json'))
 
 CHECKS = {
  "C01": dict(engine="E1", technique="bounded-exhaustive enumeration of version-grammar products; all pairs by real Compare calls, all triples decided on the comparison matrix by a ranking certificate",
-   text="Every pair of a 700-33 600 element grammar-product domain per system is compared on the real code, twice in different orders with fresh parses; reflexivity, antisymmetry, transitivity and congruence are decided for every triple of the domain (sound and complete O(n^2) ranking certificate); sorting is checked on every permutation of every <=5-subset of a 12-element sub-domain. Exhaustive within the stated alphabets, silent about versions outside them.",
-   note="Trusted: the harness's matrix/certificate code (60 lines) and the domain generators; Maven is restricted to the DESIGN 6.4 dash-form domain as the property states.", ref="5 C01, 6.1-6.4"),
+   text="Every pair of a 500-33 600 element grammar-product domain per system is compared on the real code, twice in different orders with fresh parses; reflexivity, antisymmetry, transitivity and congruence are decided for every triple of the domain (sound and complete O(n^2) ranking certificate); sorting is checked on every permutation of every <=5-subset of a 12-element sub-domain. Exhaustive within the stated alphabets, silent about versions outside them.",
+   note="Trusted: the harness's matrix/certificate code and the domain generators; Maven is restricted to the DESIGN 6.4 dash-form domain as the property states.", ref="5 C01, 6.1-6.4"),
+ "C09": dict(engine="E1", technique="bounded-exhaustive enumeration: all ordered pairs of a constraint-grammar product, Union/Intersect executed on the real Set type, membership compared on all boundary-neighbour versions",
+   text="For Default, NPM, Cargo and Go every ordered pair (A,B) of 100-1300 parsed constraints is combined with the real Union and Intersect (both operand orders, fresh parses); membership of every boundary-neighbour version of both operands is compared with A's and B's own under normal and prerelease-inclusive matching; Empty(), operand purity and alternative-order invariance are checked. Exhaustive over the stated constraint/version alphabets.",
+   note="Trusted: boundary-version derivation (neighbours of every bound printed by Set.String) - a disagreement strictly between listed neighbours would be missed; prerelease-inclusive matching of result sets goes through ParseSetConstraint(String()). One known finding (adjacent-merge-prerelease-gap) is suppressed by exact witness.", ref="5 C09, 6.5"),
+ "C10": dict(engine="E1", technique="bounded-exhaustive enumeration of version-grammar products; canonical form re-parsed and compared on the real code",
+   text="Every string of the C01 domains (plus out-of-domain Maven shapes) that Parse accepts is canonicalised with and without build metadata; the canonical string must parse, compare equal, be a fixed point, and all same-canonical-string groups must be pairwise equal; pypi.CanonVersion is cross-checked. Exhaustive over the alphabets.",
+   note="Trusted: domain generators. RubyGems prerelease versions excluded as the property states.", ref="5 C10"),
+ "C11": dict(engine="E1", technique="bounded-exhaustive enumeration of constraint-grammar products; Set.String re-parsed with ParseSetConstraint and matched on the whole boundary-version pool",
+   text="For Default, NPM, Cargo, Go and NuGet every constraint of the grammar product is printed as a set, re-parsed, re-printed and compared under prerelease-inclusive matching on every version of the system's boundary pool (150-360 versions incl. minimum and very large versions).",
+   note="Trusted: domain generators and pool derivation.", ref="5 C11, 6.5"),
+ "C13": dict(engine="E1", technique="bounded-exhaustive enumeration of rooted graphs x all renumberings x edge/error orders; Canon executed on real resolve.Graph values, one-outcome-per-orbit oracle",
+   text="All rooted graphs within stated node/edge/decoration bounds over a two-label alphabet (root included, so duplicates of the root occur) are presented to the real Canon under every renumbering of non-root nodes, every edge permutation (<=4 edges; otherwise 3 orders) and error rotations; within an orbit all outcomes must coincide, Canon must be idempotent and preserve root, node multiset and edge multiset. A structured 13-16 node family exercises sort.Sort's large-slice path.",
+   note="The property's random 40-node family is replaced by exhaustive families (DESIGN 7). Trusted: orbit generation and graph dump.", ref="5 C13, 6.9"),
+ "C14": dict(engine="E2", technique="explicit-state breadth-first search to closure over AddVersion histories on a real LocalClient (replay-based successors), every observation compared with a map model in every state",
+   text="For NPM, Maven and PyPI the reachable state space of LocalClient under an alphabet of 48-60 AddVersion operations (4-5 keys, attribute changes incl. latest/blocked/deleted, three requirement lists) is explored to closure (12 415 states, 595 920 transitions per system in quick); in every state Version, Versions, Requirements and MatchingVersions for every key, package and table requirement - and never-added ones - must agree with the model. Closure covers histories of every length.",
+   note="State key is the exact stored order and contents, so states with different internal order are not merged. Trusted: the 60-line map model and the hand satisfaction table.", ref="5 C14"),
+ "C19": dict(engine="E2+E1", technique="explicit-state BFS to closure over pairs of attribute sets under add/clone/reset on the real types, plus full product of single sets with ranking certificate and text round trips",
+   text="Pairs (X,Y) of dep.Type and of version.AttrSet are explored to closure (16 384 and 4 096 pair states) with model comparison through every accessor, Equal/Compare vs model equality and a destructive aliasing probe in every state; then every single set of the key/value product (400-2 000 sets) is built in two insertion orders, Compare is certified a total order whose equality is content equality, and each set is written in the documented schema syntax and parsed back (deptest, versiontest, schema.New).",
+   note="Values avoid the characters the schema line syntax reserves (| @ #). Two known findings in internal test helpers are suppressed by exact witness.", ref="5 C19"),
 }
 ALL = ["C%02d" % i for i in range(1, 20)]
 NA_REASON = "check not built yet in this session (planned; see DESIGN.md section 5)"
